@@ -75,7 +75,7 @@ DictCfg == {c \in Valid(MkDv(Algs({128}), OnePerm, {"present"}, {"table"}, {"dir
               c.V >= 4 /\ (c.dv = "alt" => c.cfm \in {"V2", "AESV2", "AESV3"})}
 DictTried == {"a", "b", "w"}
 \* "content": every configuration x ID x physical form x Encrypt placement x every item location, both passwords
-AllForms == {"table", "xrefstm", "hybrid", "xrefstmw0"}     \* xrefstmw0: cross-reference stream with /W [1 2 0]
+AllForms == {"table", "xrefstm", "hybrid", "xrefstmw0", "xrefstm0w"}     \* /W [1 n 0] and /W [0 n 2] cross-reference streams
 ContentQuick == Valid(Mk(Algs(KeyLensQuick), OnePerm, {"present"}, AllForms, {"direct", "indirect"}))
 ContentFull  == Valid(Mk(Algs(KeyLensFull), OnePerm, BothIds, AllForms, {"direct", "indirect"}))
 \* "mixed": the full product on reduced sets (thorough tier)
